@@ -1,15 +1,15 @@
 SPECIFICATION Spec
 CONSTANTS MaxMono = 1
  CoefSet <- Coefs3
- MaxOps = 10
+ MaxOps = 1
  MaxSize = 12
  InitP <- UniverseP
  InitQ <- QWide
  InitR <- RWide
  Gens <- GensSmall
  Scalars <- ScalarsSmall
- Kinds <- KindsAll
- Record = TRUE
+ Kinds <- KindsLaws
+ Record = FALSE
  EmitAll = FALSE
 INVARIANT NormalForm
 INVARIANT EvalCommutes
